@@ -98,6 +98,33 @@ Theorem C14_generator_rune_refuted :
 Proof. exact obj_row_rune_spec. Qed.
 Print Assumptions C14_generator_rune_refuted.
 
+(** Third refutation (word size): the platform-INDEPENDENT binding files (one table for every
+    platform) judged against go/types for a 32-bit platform, linux/386.  [wordsize_groups] is
+    regenerated: exactly the untyped constants whose value there differs from the host truth
+    (math.MaxInt, MinInt, MaxUint, strconv.IntSize, bits.UintSize, ...) with their rows.  Every such
+    row lies outside the other regions and does not denote the constant of that platform (a 386
+    build of yaegi would bind math.MaxInt to 1<<63-1).  Decided on the tables and the go/types
+    truth for 386; nothing is run on a 386 host. *)
+Theorem C14_wordsize_all_differ :
+  forall g f r, In g wordsize_groups -> In f (g_files g) -> In r (f_rows f) ->
+    row_region g r = false /\ row_ok const_g g f r = false.
+Proof. exact wordsize_all_differ. Qed.
+Print Assumptions C14_wordsize_all_differ.
+
+Theorem C14_wordsize_refuted :
+  exists g f r, In g wordsize_groups /\ In f (g_files g) /\ In r (f_rows f)
+    /\ row_region g r = false /\ row_ok const_g g f r = false.
+Proof. exact wordsize_refuted. Qed.
+Print Assumptions C14_wordsize_refuted.
+
+(** ... necessarily (unbounded): one literal denotes at most one integer value, so a table shared
+    by platforms on which the constant differs is wrong on all of them but one. *)
+Theorem C14_literal_denotes_one_value :
+  forall z1 z2 t lit n d, parse_literal t lit = Some (n, d) -> d <> 0 ->
+    const_g (KUInt z1) t lit = true -> const_g (KUInt z2) t lit = true -> z1 = z2.
+Proof. exact const_int_functional. Qed.
+Print Assumptions C14_literal_denotes_one_value.
+
 (* ------------------------------------------------------------------ *)
 (** * The tables of the other platforms (cross-platform rows, quick set) *)
 
